@@ -267,7 +267,7 @@ def generate(args):
             dist_result["distribution"] = fg_mapping
             print(yaml.dump(dist_result))
         if args.var_dist:
-            dist_result["distribution"] = fg_mapping
+            dist_result["distribution"] = var_mapping
             print(yaml.dump(dist_result))
 
 
